@@ -16,6 +16,7 @@ LEVEL_NOTE = "necessary conditions only"
 
 def run(ctx):
     from . import guardvocab
+    guardvocab.G3(ctx, scopes=('lazy_static::', 'thread::LocalKey', 'rt::lazy_static::'))
     guardvocab.G0(ctx, effects={'init-static'})
     guardvocab.G1(ctx, effects={'init-static'})
     tlsrules.H1(ctx)
